@@ -89,6 +89,16 @@ def run(ctx):
         translated = False
         ctx.obligation("translator:T2 accepts the source", False, repr(e))
 
+    # translator T5 (the Legendre table of the angular form): same regeneration as in C11
+    try:
+        import leg2poly
+        rows_leg, exact_leg = leg2poly.translate(11)
+        ctx.write_generated("Legendre.lean", leg2poly.render(11, rows_leg))
+        ctx.obligation("translator:T5 accepts o3.Legendre's FX graph and lifts every coefficient", exact_leg,
+                       "a float coefficient of o3.Legendre(range(12)) is not of the documented form (n/d)*sqrt(r)/sqrt(pi)")
+    except Exception as e:  # noqa: BLE001
+        ctx.obligation("translator:T5 accepts o3.Legendre's FX graph and lifts every coefficient", False, repr(e)[-1500:])
+
     # ---- prove -------------------------------------------------------------------------
     built = False
     if translated:
@@ -100,6 +110,18 @@ def run(ctx):
             mods += ["E3nnVerif.Props.C05Ext"] + [f"E3nnVerif.Cert.SH.L{l}" for l in range(KERNEL_LMAX + 1, 12)]
         ok, out = ctx.lake_build(targets, timeout=7000)
         built = ok
+        # the angular form = the Cartesian form (Props/C11Ang.lean: kernel certificates Cert/Ang/L0..L8 about BOTH regenerated tables)
+        ang_targets = ["E3nnVerif.Props.C11Ang"] + (["E3nnVerif.Props.C11AngExt"] if ctx.tier == "thorough" else [])
+        oka, outa = ctx.lake_build(ang_targets, timeout=7000)
+        if oka:
+            for l in range(0, 9 if ctx.tier != "thorough" else 12):
+                ctx.obligation(f"cert:Ang.L{l} (decide +kernel: sh_l(angles_to_xyz) = sqrt(4 pi) * sha x Legendre as polynomials mod sin^2+cos^2=1)", True)
+            ctx.obligation("build:" + ",".join(ang_targets), True)
+            ctx.audit(["E3nnVerif.Props.C11Ang"] + [f"E3nnVerif.Cert.Ang.L{l}" for l in range(9)])
+        else:
+            import re as _re
+            bad_a = sorted(set(_re.findall(r"E3nnVerif/(Cert/Ang/\w+|Cert/Leg/\w+|Props/\w+|Sound/\w+)\.lean", outa)))
+            ctx.obligation("build:" + ",".join(ang_targets), False, f"failing: {bad_a[:12]} :: " + outa[-1500:])
         if ok:
             ctx.obligation("build:" + ",".join(targets), True)
             ctx.audit(mods)
@@ -322,6 +344,53 @@ def api_oracles(ctx, o3):
                     i = int((a - b).abs().max(-1).values.argmax())
                     ctx.violation(f"spherical_harmonics_alpha_beta/l={l}", {"l": l, "alpha": float(alpha[i]), "beta": float(beta[i]),
                                                                             "normalization": normalization, "max_dev": float((a - b).abs().max())}, True)
+        # ... for EVERY beta (the angular form is a polynomial in cos beta and the SIGNED sin beta: theorem sh_angular_form /
+        # shAlphaBeta_eq_cartesian of Props/C11Ang.lean), in particular beta outside [0, pi]
+        alpha_w = torch.rand(10, generator=g, dtype=torch.float64) * 14 - 7
+        beta_w = torch.rand(10, generator=g, dtype=torch.float64) * 4 * math.pi - 2 * math.pi
+        alpha_w = torch.cat([alpha_w, torch.tensor([0.4, -1.1, 2.0, 0.0, 3.0])])
+        beta_w = torch.cat([beta_w, torch.tensor([-0.3, -math.pi / 2, math.pi + 0.4, 2 * math.pi - 0.1, -2.5])])
+        xyz_w = o3.angles_to_xyz(alpha_w, beta_w)
+        for l in range(12):
+            for normalization in ["component", "integral", "norm"]:
+                a = o3.spherical_harmonics_alpha_beta(l, alpha_w, beta_w, normalization=normalization)
+                b = o3.spherical_harmonics(l, xyz_w, True, normalization)
+                ctx.case(f"angular-any-beta l={l} {normalization}", nontrivial=l > 0)
+                if (a - b).abs().max() > 1e-10:
+                    i = int((a - b).abs().max(-1).values.argmax())
+                    ctx.violation("spherical_harmonics_alpha_beta/beta-outside-[0,pi]",
+                                  {"l": l, "alpha": float(alpha_w[i]), "beta": float(beta_w[i]), "normalization": normalization,
+                                   "call": "o3.spherical_harmonics_alpha_beta(l, alpha, beta) vs o3.spherical_harmonics(l, o3.angles_to_xyz(alpha, beta), True)",
+                                   "max_dev": float((a - b).abs().max())}, True)
+                    break
+        # the model of spherical_harmonics_alpha_beta (regenerated Legendre table x spherical_harmonics_alpha; drivers/C11.lean op
+        # `shab`) next to the real function, every normalisation, angles in the wide range
+        try:
+            from c11 import bits, unbits
+            al = torch.cat([alpha, alpha_w])
+            be = torch.cat([beta, beta_w])
+            lines, exp = [], []
+            for normalization in ["component", "integral", "norm"]:
+                real = o3.spherical_harmonics_alpha_beta(list(range(12)), al, be, normalization=normalization)
+                for i in range(al.numel()):
+                    lines.append(f"shab {normalization} 11 {bits(al[i].item())} {bits(be[i].item())}")
+                    exp.append((normalization, float(al[i]), float(be[i]), real[i].numpy()))
+            outs = ctx.run_driver("C11", lines)
+            worst, bad = 0.0, None
+            for o, (nz, a_, b_, r) in zip(outs, exp):
+                toks = o.split()
+                ctx.case(f"shab-model {nz} {a_:.3f} {b_:.3f}")
+                if toks[0] != "ok" or len(toks) - 1 != r.size:
+                    worst, bad = float("inf"), (nz, a_, b_, o[:80])
+                    break
+                d = float(abs(unbits(toks[1:]) - r).max())
+                if d > worst:
+                    worst, bad = d, (nz, a_, b_)
+            ctx.notes["shab_model_vs_code_max_abs_diff"] = worst
+            ctx.obligation("corr:model of spherical_harmonics_alpha_beta (Legendre table x sha) vs the real function", worst <= 1e-10,
+                           f"max |model - real| = {worst} at (normalization, alpha, beta) = {bad}")
+        except Exception as e:  # noqa: BLE001
+            ctx.obligation("corr:model of spherical_harmonics_alpha_beta (Legendre table x sha) vs the real function", False, repr(e)[-800:])
         for lmax in (0, 3, 8, 11):
             leg = o3.Legendre(list(range(lmax + 1)))
             z = torch.cos(beta)
